@@ -656,6 +656,9 @@ class NFA(fa.FA):
         }
 
         for state_a, transitions in self.transitions.items():
+            # Rows keyed by names that are not states can never be used
+            if state_a not in self.states:
+                continue
             for symbol, states in transitions.items():
                 for state_b in states:
                     new_transitions[state_b].setdefault(symbol, set()).add(state_a)
@@ -1007,6 +1010,9 @@ class NFA(fa.FA):
         """
 
         for state_a, transitions in old_transition_dict.items():
+            # Rows keyed by names that are not states can never be used
+            if state_a not in state_map_dict:
+                continue
             for symbol, states in transitions.items():
                 new_transition_dict[state_map_dict[state_a]][symbol] = {
                     state_map_dict[state_b] for state_b in states
